@@ -143,8 +143,11 @@ class ElectionProfile:
                 profile.nBallots += multiplier
                 ranking = [rank[0] for rank in ranking] # possibly empty
                 #  typecode by largest candidate ID: 'B' holds 0..255, 'H' 0..65535
-                typecode = 'B' if profile.nCand < 256 else 'H' if profile.nCand < 65536 else 'L'
-                self.ranking = array.array(typecode, ranking)
+                typecode = 'B' if profile.nCand < 256 else 'H' if profile.nCand < 65536 else 'Q'
+                try:
+                    self.ranking = array.array(typecode, ranking)
+                except OverflowError:   # a candidate ID beyond 64 bits: no such file can be completed
+                    raise ElectionProfileError('bad blt: candidate ID too large near ballot %d' % (len(profile.ballotLines)+1))
 
     def __validate(self):
         "check profile for internal consistency"
